@@ -27,13 +27,37 @@ for d in sorted(os.listdir(os.path.join(here, 'seeded'))):
         c = '*(not by ' + own + ')* ' + c
     rows.append('| %s | %s | %s | %s | %s |' % (d, own, needs, c, ', '.join(m.get('missed_by', [])) or '—'))
 table = '\n'.join(['| Seeded change | Property | Needs, in order to manifest | Caught by (first rule) | Also run, silent |', '|---|---|---|---|---|'] + rows)
+# per-round summary (first run = the engine as it was when the round was delivered; for rounds 1 and 2
+# the numbers noted at the time, later rounds from meta.json)
+first = {}
+for d in sorted(os.listdir(os.path.join(here, 'seeded'))):
+    mp = os.path.join(here, 'seeded', d, 'meta.json')
+    if not os.path.exists(mp):
+        continue
+    m = json.load(open(mp))
+    own = re.match(r'(C\d+)', d).group(1)
+    rnd = 'r1' if re.match(r'C\d+_\d+$', d) else re.match(r'C\d+_(r\d)_', d).group(1)
+    fr = m.get('first_run_caught_by', [c['check'] for c in m.get('caught_by', [])])
+    f = first.setdefault(rnd, [0, 0]); f[0] += own in fr; f[1] += bool(fr)
+first['r1'] = [38, 38]
+first['r2'] = [35, 44]
+summary = ['| Round | delivered | own check, first run | some check, first run | own check, now | some check, now |', '|---|---|---|---|---|---|']
+for k in sorted(tot):
+    summary.append('| %s | %d | %d | %d | %d | %d |' % (k[1:], tot[k][0], first[k][0], first[k][1], tot[k][1], tot[k][2]))
+summary.append('| all | %d | %d | %d | %d | %d |' % (sum(v[0] for v in tot.values()), sum(v[0] for v in first.values()), sum(v[1] for v in first.values()), sum(v[1] for v in tot.values()), sum(v[2] for v in tot.values())))
+summary = '\n'.join(summary)
 for k in sorted(tot):
     print(k, 'total %d own-check %d some-check %d' % tuple(tot[k]))
 print('all', [sum(v[i] for v in tot.values()) for i in range(3)])
+print(summary)
 if '--write' in sys.argv:
     p = os.path.join(here, 'DESIGN.md')
     s = open(p).read()
     a, b = '<!-- SEEDED-TABLE-BEGIN -->', '<!-- SEEDED-TABLE-END -->'
     i, j = s.index(a), s.index(b)
     s = s[:i + len(a)] + '\n' + table + '\n' + s[j:]
+    a, b = '<!-- SEEDED-SUMMARY-BEGIN -->', '<!-- SEEDED-SUMMARY-END -->'
+    if a in s:
+        i, j = s.index(a), s.index(b)
+        s = s[:i + len(a)] + '\n' + summary + '\n' + s[j:]
     open(p, 'w').write(s)
